@@ -110,6 +110,10 @@ theorem parseHashRuleSliceInfos_keys (locs : List Int) (slices : List String) (i
   unfold parseHashRuleSliceInfos at h
   split at h
   · simp at h
+  split at h
+  · simp at h
+  split at h
+  · simp at h
   · simp only [Option.some.injEq] at h
     have := hashLoop_keys locs 0 0 ([], []) (by intro x; simp [mapGet])
     rw [h] at this
@@ -274,6 +278,18 @@ theorem copies_length (cfg : GlobalCfg) (hv : ValidCfg cfg) : (copies cfg).lengt
   rw [copies_eq cfg hv, List.length_zip, copySlices_length _ _ hv.len, globalDbs_length cfg hv]
   simp
 
+/-- an accepted `locations` list yields what the loop computes -/
+theorem parseHashRuleSliceInfos_some (locs : List Int) (slices : List String) (p : List Int × List (Int × Int))
+    (h : parseHashRuleSliceInfos locs slices = some p) : p = hashLoop locs 0 0 ([], []) := by
+  unfold parseHashRuleSliceInfos at h
+  split at h
+  · simp at h
+  split at h
+  · simp at h
+  split at h
+  · simp at h
+  · simp only [Option.some.injEq] at h; exact h.symm
+
 /-- the fields of the rule `NewRouter` builds from a global-table configuration -/
 theorem parseGlobalRule_fields (ns : List String) (cfg : GlobalCfg) (r : Rule) (hv : ValidCfg cfg)
     (h : parseGlobalRule false ns cfg = some r) :
@@ -282,11 +298,19 @@ theorem parseGlobalRule_fields (ns : List String) (cfg : GlobalCfg) (r : Rule) (
     r.dbs = globalDbs cfg ∧
     (∀ x : Int, mapGet r.t2s x =
       if 0 ≤ x ∧ x < (totalTables cfg.locations : Int) then some ((groupOf cfg.locations x.toNat : Nat) : Int) else none) := by
-  unfold parseGlobalRule parseHashRuleSliceInfos at h
-  simp only [hv.len, ne_eq, not_true_eq_false, ↓reduceIte] at h
-  split at h
-  · simp at h
-  · simp only [Option.some.injEq] at h
+  unfold parseGlobalRule at h
+  cases hp : parseHashRuleSliceInfos cfg.locations cfg.slices with
+  | none => simp [hp] at h
+  | some p =>
+    have hpe : p = hashLoop cfg.locations 0 0 ([], []) := parseHashRuleSliceInfos_some _ _ _ hp
+    obtain ⟨idxs, t2s⟩ := p
+    simp only [hp] at h
+    split at h
+    · simp at h
+    simp only [Option.some.injEq] at h
+    have hi : idxs = (hashLoop cfg.locations 0 0 ([], [])).1 := by rw [← hpe]
+    have ht : t2s = (hashLoop cfg.locations 0 0 ([], [])).2 := by rw [← hpe]
+    subst hi; subst ht
     have hidx := hashLoop_fst cfg.locations 0 0 ([], []) hv.pos
     have hget := fun x => hashLoop_get cfg.locations 0 0 ([], []) x hv.pos
     have hidx' : (hashLoop cfg.locations 0 0 ([], [])).1 =
